@@ -264,6 +264,37 @@ def run_world(C, servers, rl, rh, progs, mode, rng):
                    users_done=all(S.state.get(t) == 'done' for t in user_tids),
                    interrupted={nt.sched_tid: bool(nt._int) for nt in world.nts},
                    pending={t: S.pending.get(t, (None,))[0] for t in all_tids() if S.state.get(t) != 'done'})
+        # ---- reusability probe: once every networking thread has terminated and all callers are done,
+        # the object is not active, so one more connect() (to an accepting server) must not be refused
+        res['probe'] = None
+        if not alive and not stuck and res['users_done'] and not S.errors:
+            world.servers = world.servers[:res['conns']] + ['a'] * 4
+            world.rl[0] = world.rh[0] = 0
+            pout = []
+            pt = SC.user_thread(S, 50, lambda: world.api('c', pout))
+            pt.start()
+            S.wait_all_parked(all_tids() + [50])
+            k = 0
+            while S.state.get(50) != 'done' and k < 400:
+                en = [t for t in all_tids() + [50] if S.enabled(t)]
+                if not en:
+                    break
+                S.step(50 if 50 in en else en[0])
+                S.wait_all_parked(all_tids() + [50])
+                k += 1
+            res['probe'] = pout[0] if pout else 'did-not-return'
+            try:
+                world.conn.disconnect(immediate=True)
+            except Exception:
+                pass
+            k = 0
+            while k < 400:
+                en = [t for t in all_tids() if S.enabled(t)]
+                if not en:
+                    break
+                S.step(en[0])
+                S.wait_all_parked(all_tids())
+                k += 1
         return res
     finally:
         # let parked threads die: mark everything runnable and drain quickly
@@ -302,6 +333,10 @@ def oracle(ctx, servers, rl, rh, progs, r, label):
     if r['errors']:
         bad = bad or 'a thread raised: %r' % (r['errors'][:2],)
         key_kind = key_kind or 'thread-raised'
+    if not bad and r.get('probe') not in (None, 'ok'):
+        bad = 'every networking thread has terminated and no call is in progress, yet one more connect() -> %s ' \
+              '(slots at rest: networking_thread set=%s, new_networking_thread set=%s)' % (r['probe'], r['nt'], r['newnt'])
+        key_kind = 'not-reusable'
     dist = [e for e in r['events'] if e[0] == 'disturbed']
     if dist and not bad:
         bad = 'a refused %s (InvalidState) nevertheless performed socket operations on behalf of the caller: %r' % (
